@@ -2,7 +2,15 @@
 """Generates the atom sets / prefixes section of MC_NameAddr.tla (between the GENERATED markers) and the
 MC_NameAddr_*.cfg files, and prints an estimate of the number of wires per configuration
 (cfg files cannot hold tuples; TLC has no string -> bytes conversion).
-Usage: python3 gen_mc_nameaddr.py [delta]     delta is subtracted from every MaxLen (quick runs)."""
+Usage: python3 gen_mc_nameaddr.py [delta]     delta is subtracted from every MaxLen (quick runs).
+NA_CFG_OUT=<dir> writes the cfg files elsewhere (scratch runs with absolute cfg paths).
+L = bytes of text after the prefix for start = 0; MaxLen = len(prefix) + L (start = 3 cfgs get 3 bytes less).
+Arm coverage: `bin/drift --coverage` does not terminate on this module (TLC's cost-model creation explodes on
+the mutually recursive arm operators).  Coverage was measured on the Go side instead: with drift = 0 the
+records reach exactly the same arms in the code; a `go test -cover -coverpkg=.../sipsp` replay of all records
+of all cfgs leaves unreached only: the re-entry paths after a definitive verdict (fbFIN, last.Parsed()), the
+`return n, err` after skipLWS (skipLWS never fails on a WS char), `default: ErrHdrBug`, the final else of
+setFromParamVal (dead), GetContact's last `return nil`, the Reset()s and ParseFromVal."""
 import sys, os, re
 HERE = os.path.dirname(os.path.abspath(__file__))
 OUT = os.environ.get("NA_CFG_OUT", HERE)      # where the cfg files go (scratch runs)
